@@ -7,7 +7,7 @@
 From Coq Require Import List ZArith Bool.
 From Coq Require Import Permutation Sorted.
 From TskVerif Require Import Base.Common C14.Model C14.Spec C14.Basics C14.SubsetMain
-     C14.SubsetCorollaries C14.SubsetIdentity C14.UnionProofs C14.UnionRows C14.SortProofs C14.UnionFull C14.UnionRefs C14.InverseProofs C14.InverseRows C14.GuardProofs C14.SortRemap C14.WrapperProofs C14.InverseRefs C14.CanonInvariance C14.Examples.
+     C14.SubsetCorollaries C14.SubsetIdentity C14.UnionProofs C14.UnionRows C14.SortProofs C14.UnionFull C14.UnionRefs C14.InverseProofs C14.InverseRows C14.GuardProofs C14.SortRemap C14.WrapperProofs C14.InverseRefs C14.CanonInvariance C14.CanonInds C14.Examples.
 Import ListNotations.
 Open Scope Z_scope.
 
@@ -443,3 +443,26 @@ Theorem populations_order_invariant : forall t nodes pi pops2,
   (forall u r, node_row t u = Some r ->
      remap_ref (pop_map t2 nodes false) (rename_ref pi (n_pop r)) = remap_ref (pop_map t nodes false) (n_pop r)).
 Proof. exact populations_order_invariant_lemma. Qed.
+
+(* individuals, PARTIAL: when the individual rows are permuted by [pi] and every id renamed, the
+   canonical order of the permuted table is the renamed canonical order of the original — GIVEN
+   that the sort keys of corresponding rows agree.  The first-node key is discharged by
+   [first_nodes_rename]; the descendant-count key (queue algorithm of
+   tsk_individual_table_topological_sort) is the missing lemma and stays a hypothesis. *)
+Theorem canonical_individual_order_invariant_partial :
+  forall pi inds1 inds2 nd1 nd2 fn1 fn2,
+  Permutation (map (rename_indexed pi) (index_from 0 inds1)) (index_from 0 inds2) ->
+  (forall i, 0 <= i < zlen inds1 -> nd2 (pi i) = nd1 i) ->
+  (forall i, 0 <= i < zlen inds1 -> fn2 (pi i) = fn1 i) ->
+  (forall i j, 0 <= i < zlen inds1 -> 0 <= j < zlen inds1 -> fn1 i = fn1 j -> i = j) ->
+  isort (individual_canonical_le nd2 fn2) (index_from 0 inds2)
+  = map (rename_indexed pi) (isort (individual_canonical_le nd1 fn1) (index_from 0 inds1)).
+Proof. exact canonical_individual_order_invariant_partial_lemma. Qed.
+
+Theorem first_nodes_rename : forall pi n ns,
+  (forall p q, in_range n p = true -> in_range n q = true -> pi p = pi q -> p = q) ->
+  (forall p, in_range n p = true -> 0 <= pi p) ->
+  (forall nd, In nd ns -> ref_ok n (n_ind nd) = true) ->
+  forall i, in_range n i = true ->
+    first_nodes (map (rename_node_ind pi) ns) (pi i) = first_nodes ns i.
+Proof. exact first_nodes_rename_lemma. Qed.
